@@ -13,7 +13,7 @@ CLAIMED = {
         technique="coverage-guided fuzzing (libFuzzer fork harness) + Hypothesis token mutation + exhaustive truncation/stress families, ASan/UBSan exit-status oracle",
         text="Generated-input search for crashes, sanitizer reports, assertion failures, hangs and wrong exit statuses of cproc-qbe on "
              "truncated, mutated, fuzzed and pathologically nested/long inputs and on failing input/output descriptors. Exploration, not proof: "
-             "absence of a violation means none was found within the stated case counts.",
+             "absence of a violation means none was found within the stated case counts. Enumerated sources: 76 fragments x 51 contexts placement units, every C10 catalogue entry followed by uses of what it declares, ~750 hand-written edge units.",
         note="Trusts clang 14 ASan/UBSan to expose memory errors and UB; NULL+0 excluded (DESIGN 2.1); stack exhaustion judged on the plain build only; "
              "recorded open findings are suppressed by (kind, faulting function) signature only."),
     "C20": dict(
@@ -22,7 +22,7 @@ CLAIMED = {
         technique="metamorphic property-based testing: Hypothesis-drawn environment/layout/IO perturbations must leave output, status and diagnostics unchanged; MemorySanitizer sweep; emission-order check on generated units",
         text="For corpus files, cproc's own preprocessed sources, token-mutated (mostly invalid) programs and generated declaration-order units, "
              "a baseline run is compared byte-for-byte with runs under drawn perturbations of locale, TZ, malloc behaviour, environment size, ASLR, cwd, "
-             "input/output channel, stack limit and compiler build (gcc plain/hook, clang ASan); an MSan build checks for uninitialised reads. Exploration level.",
+             "input/output channel, stack limit and compiler build (gcc plain/hook, clang ASan); an MSan build checks for uninitialised reads. Exploration level. Inputs also include C01's generated programs, C07's initialiser units, C12's macro texts, C13's token texts and C19's edge units; the MSan source additionally runs the edge and placement units.",
         note="Only locales present in the sandbox can take effect; MALLOC_PERTURB_/MSan are the detectors for uninitialised memory; inputs that crash the compiler are left to C19."),
     "C03": dict(
         category="exploration", design_ref="DESIGN.md 3/C03, 2.2",
@@ -30,7 +30,7 @@ CLAIMED = {
         technique="generated-input search with an independent QBE IL validator as oracle (parser + SSA/dominance/class/phi/call checks), differential data size/alignment against clang --target objects, RLIMIT_FSIZE write-fault injection",
         text="Every module cproc-qbe emits with status 0 for corpus files, its own sources, compiling token-mutants, generated programs and generated static initialisers (C07's generator) on the "
              "three targets is parsed and validated by vlib/ilcheck.py; data definitions are compared in size/alignment with the C object as laid "
-             "out by clang; output-failure injection checks that status 0 is only returned with the complete output. Exploration level.",
+             "out by clang; output-failure injection checks that status 0 is only returned with the complete output. Exploration level. Hand-written special units (functions without named parameters, main with every return type, va_list members, dead code after noreturn calls in every expression position) are validated on three targets.",
         note="ilcheck.py is written from QBE's IL reference, not run against QBE itself (QBE is not installed); rules are permissive where QBE's behaviour is uncertain."),
     "C01": dict(
         category="exploration", design_ref="DESIGN.md 3/C01, 2.3-2.6",
@@ -39,7 +39,7 @@ CLAIMED = {
         text="Generated UB-free programs (expressions over all arithmetic types with boundary values, bit-fields, conversions, aggregates and their "
              "copies, initialisation, control flow, calls incl. variadic/aggregate, VLAs, alloca, static/thread/compound objects) and a hand-written corpus are "
              "compiled for the three targets; the IL is validated, executed via il2c+gcc+ASan and its chk_* output and exit status compared with two reference "
-             "compilers (and the cmodel prediction for generator A). Exploration level: differences, traps and out-of-bounds accesses found are violations.",
+             "compilers (and the cmodel prediction for generator A). Exploration level: differences, traps and out-of-bounds accesses found are violations. Later additions: alloca call sites executed repeatedly, members after anonymous members, whole-object copies of over-aligned aggregates, VLA typedefs used in sibling branches, pointer +/- integers of every width, side effects next to result-deciding constants, labels spelled through macros.",
         note="IL semantics are il2c's reading of QBE's IL reference (QBE not installed); cases where gcc and clang disagree or report UB are discarded; "
              "constructs of three recorded findings are steered away from (avoid switches) and replayed separately."),
     "C15": dict(
@@ -48,7 +48,7 @@ CLAIMED = {
         technique="model-based testing: rapidcheck + exhaustive insertion orders against tree.c with a std::set/AVL-invariant oracle; Hypothesis switch programs executed through il2c against a dictionary model, IL ladder-depth bound, duplicate-label rejection",
         text="(a) tree.c linked in-process: all insertion orders of <= 8 keys (exhaustive) and random 64-bit key sequences, every AVL invariant checked after each "
              "insertion. (b) generated switch statements over all integer controlling types with up to 5000 cases are compiled, executed via il2c and probed at every key, "
-             "its neighbours and the type limits against a dictionary model; search depth is bounded from the IL; duplicate case constants/defaults must be rejected.",
+             "its neighbours and the type limits against a dictionary model; search depth is bounded from the IL; duplicate case constants/defaults must be rejected. Controlling expressions that need a conversion before the promotion (casts, assignments, += and ++ of a wider value) and arms whose labels sit inside loops, if statements and nested blocks are generated.",
         note="(a) exhaustive only for <= 8 keys (10 in thorough); (b) IL executed through il2c, not QBE; gcc/clang arbitrate model mismatches."),
     "C06": dict(
         category="exploration", design_ref="DESIGN.md 3/C06",
@@ -81,7 +81,7 @@ CLAIMED = {
         text="Every (operator, left type, right type) triple over all arithmetic types, three enum types and bit-fields of ten widths, every integer literal spelling by base/suffix/magnitude, "
              "character/floating literals and ~110 pointer/qualifier/decay/member expressions are typed by cproc (observed via _Generic selection emitted as data) and compared with the "
              "C11 typing model; random nested expressions and random derived-type pairs for __builtin_types_compatible_p extend the search. The enumerated spaces are complete on x86_64 "
-             "(10 % sample on the other two targets in quick, complete in thorough).",
+             "(10 % sample on the other two targets in quick, complete in thorough). Enumeration constants (18 boundary values x differently typed initialisers, fixed underlying types, forward declarations), typeof/typeof_unqual and conversions that _Generic cannot see (observed through sizeof/typeof) are tabulated too.",
         note="cmodel.py typing rules are the oracle; clang --target (and gcc for compatibility judgements) arbitrate; enum pointees and top-level qualified arrays are excluded from the compatibility pairs because gcc/clang deviate from C11 there."),
     "C14": dict(
         category="exploration", design_ref="DESIGN.md 3/C14",
@@ -126,7 +126,7 @@ CLAIMED = {
         engine="enumeration+hypothesis",
         technique="bounded-exhaustive enumeration of declaration histories of one identifier plus Hypothesis multi-identifier units; the symbol table read from the emitted IL is compared with the ELF symbol tables of gcc and clang (used only where both accept and agree)",
         text="Histories of up to 3 declarations/definitions (objects: 6 storage-class combinations; functions: 6 specifier combinations; file/block scope; with/without initialiser or body) and random units with "
-             "interleaved histories, block-scope externs/statics, tentative arrays, asm labels and thread-locals: defined symbols with export flag, kind, size and zero-ness, no-linkage objects and undefined references must match the references.",
+             "interleaved histories, block-scope externs/statics, tentative arrays, asm labels and thread-locals: defined symbols with export flag, kind, size and zero-ness, no-linkage objects and undefined references must match the references. Array-typed histories (which declaration gives the length), declarations hidden behind a local of the same name, and hand-written units of thread-locals whose initialisers emit helper objects are included.",
         note="gcc 12 and clang 14 (-std=c11 -pedantic-errors, implicit declarations as errors) are the oracle instead of a hand-written linkage model; quick tier samples 1/7 of the length-2/3 histories per seed, thorough enumerates all (and samples length 4); two recorded findings are replayed separately."),
     "C16": dict(
         category="exploration", design_ref="DESIGN.md 3/C16",
@@ -142,7 +142,7 @@ CLAIMED = {
         technique="differential property-based testing of the calling convention: generated signatures with aggregate/variadic arguments, four-way mixed executables (cproc via il2c x gcc) compared with the gcc/gcc control; structural comparison of IL type descriptions with clang --target layouts on three targets",
         text="Dynamic (x86_64): position-dependent argument patterns cross the boundary between cproc-compiled (IL rebuilt into C structs from the emitted type descriptions, executed via il2c) and gcc-compiled code in both "
              "directions, every leaf and the returned aggregate must arrive intact. Structural (3 targets): size, alignment and per-eightbyte class sets of every IL aggregate type equal the C layout from clang offsetof tables; "
-             "parameter/return descriptors and the variadic marker position match the prototype.",
+             "parameter/return descriptors and the variadic marker position match the prototype. An assembler callee returns every narrow result with all bits the psABI leaves undefined set (24 uses x 9 functions, direct and indirect); variable arguments cover every type that needs the default promotions, 64-bit enums and bit-fields, with values that use all 64 bits.",
         note="The host C ABI classifies the rebuilt structs as QBE would from the same description (trusted); aarch64/riscv64 get only the structural half; aggregates with bit-fields trip a recorded finding (emittype) whose three signatures are suppressed; "
              "packed/_Alignas-member aggregates by value (C01 findings) are not generated."),
     "C02": dict(
@@ -158,7 +158,7 @@ CLAIMED = {
         technique="model-based property testing of the driver: Hypothesis draws command lines from the option grammar of cproc(1); the driver (three builds, one per target triple) runs with recording stand-in tools; argv, pipe identity, inherited descriptors, outputs and exit status are compared with a model written from cproc.1/README",
         text="Command lines with up to 6 inputs of all 7 types (by suffix and -x), every mode flag (also repeated), -o in all forms, every forwarding option attached and detached, ignored, unknown and dangling options, "
              "and a second source with undocumented-but-accepted options (weaker oracle): stages per input, pipe order, each tool's argument multiset and per-group order, link-line order, output names, "
-             "-v trace, usage errors (status 2, nothing run, nothing written) must match the model. Exploration level.",
+             "-v trace, usage errors (status 2, nothing run, nothing written) must match the model. Exploration level. Every ordered pair of 28 options is enumerated in four layouts around fixed inputs (the effect of an option must not depend on the position of another).",
         note="The tools are stand-ins (native/stub.c), so only the driver's own behaviour is observed; where cproc.1 is silent every behaviour is accepted (marked PERMISSIVE in vlib/props/c17.py); two recorded findings "
              "(-emit-qbe default output, -pthread position) are matched only when the observation equals the model with exactly that rule changed."),
     "C18": dict(
@@ -167,7 +167,7 @@ CLAIMED = {
         technique="fault injection through stand-in tools: exhaustive enumeration of single faults (pipeline shape x stage instance x fault kind x fast/slow neighbours) plus Hypothesis multi-fault vectors with delays and large outputs; invariants of the property statement as oracle, orphan detection via PR_SET_CHILD_SUBREAPER",
         text="Every single-fault vector over 1-3 inputs x last stage in {preprocess, compile, codegen, assemble, link} x {command missing, exit 1 before reading / after half the output / after finishing, SIGSEGV, SIGKILL} is enumerated "
              "(exhaustive for that space); multi-fault vectors, delays, mixed input types and outputs larger than a pipe buffer are drawn. Any fault must give exit status > 0, no link step, no outputs of failing pipelines, "
-             "no temporary object left, no stage process orphaned or still running, slow neighbours terminated, termination within 20 s; fault-free vectors must succeed with complete outputs.",
+             "no temporary object left, no stage process orphaned or still running, slow neighbours terminated, termination within 20 s; fault-free vectors must succeed with complete outputs. Further dimensions: the driver inherits a child it did not spawn (exits while it waits), and '-o -' (refused for objects with nothing started or left behind).",
         note="Faults are those a stand-in can produce (exit status, signals, missing command, partial output, delay); kernel-level interleavings are not enumerated, termination orders are forced with delays only; "
              "temporaries are recognised by the /tmp/cproc-XXXXXX names seen in argv or the -v trace."),
 }
